@@ -197,6 +197,44 @@ def judge(acc, s):
     return acc
 
 
+def subset_strings():
+    """Well-formed vectors that lack mandatory metrics in every degree: only optional metrics, a
+    single mandatory metric, every prefix / suffix / every-other subset of the mandatory metrics,
+    with and without optional metrics - the boundary between the two error classes."""
+    out = []
+    for fam in T.FAMILIES:
+        tab = T.METRICS[fam]
+        mand, opt = T.MANDATORY[fam], T.OPTIONAL[fam]
+        val = dict((m, tab[m][-1]) for m in tab)
+        sel = []
+        for m in opt:
+            sel.append([m])
+        sel.append(list(opt))
+        sel.append(opt[:2])
+        for m in mand:
+            sel.append([m])
+            sel.append([m] + opt[:1])
+        for k in range(1, len(mand)):
+            sel.append(mand[:k])
+            sel.append(mand[k:])
+            sel.append(mand[:k] + opt)
+        sel.append(mand[::2])
+        sel.append(mand[1::2] + opt[::2])
+        for ms in sel:
+            out.append(T.spell(fam, dict((m, val[m]) for m in ms)))
+            out.append(T.spell(fam, dict((m, val[m]) for m in ms), order=list(reversed([m for m in tab if m in ms]))))
+        out.append(T.PREFIX[fam])
+        out.append(T.PREFIX[fam].rstrip("/"))
+    return sorted(set(out))
+
+
+def _subset_task(chunk):
+    acc = sweep.new_acc()
+    for s in chunk:
+        judge(acc, s)
+    return acc
+
+
 def _short_task(t):
     chars, prefix_list, maxlen = t
     acc = sweep.new_acc()
@@ -234,6 +272,9 @@ def run(ctx, res):
     tasks = [(chars, [c1 + c2 for c2 in chars], maxlen) for c1 in firsts]
     accs3 = core.task_map(_short_task, tasks)
     short_n = sum(a["n"] for a in accs3)
+    subs = subset_strings()
+    accs3 += core.task_map(_subset_task, [subs[i::8] for i in range(8)])
+    stats["subset_strings"] = len(subs)
     extra = sweep.new_acc()
     for s in [""] + firsts:
         judge(extra, s)
